@@ -43,6 +43,8 @@ def p1_pc(ctx):
         pushes.append((cond, roles))
     pops = []
     for cond, seq, p_ in SQ.effect_sequences(lambda e: e[0] == 'call'):
+        if not boolform.satisfiable(cond):
+            continue            # (a selection made twice on the same flag: the mixed combinations cannot happen)
         reads = [e for e in p_.effects if e[0] == 'call' and e[1] == RD]
         setpc = [e for e in p_.effects if e[0] == 'call' and 'Interpreter::SetPC' in e[1]]
         roles = None
@@ -77,7 +79,9 @@ def p1_pc(ctx):
     # both orders exist and are selected by the same mode bit
     conds_p = sorted(boolform.show(c_) for c_, r_ in pushes)
     conds_q = sorted(boolform.show(c_) for c_, r_ in pops)
-    if conds_p != conds_q or 'cpc' not in ''.join(conds_p):
+    same = all(any(boolform.equivalent(cp, cq) is True for cq, _ in pops) for cp, _ in pushes) and \
+        all(any(boolform.equivalent(cp, cq) is True for cp, _ in pushes) for cq, _ in pops)
+    if not same or 'cpc' not in ''.join(conds_p):
         ctx.report(R, pop, pop['body'], 'PushPC/PopPC guards', 'push and pop do not branch on the same word-order condition: %s / %s' % (conds_p, conds_q))
 
 
